@@ -699,8 +699,8 @@ func Run(in Input) Obs {
 		}
 		ctx, cancel := context.WithTimeout(context.Background(), limit)
 		cmd := exec.CommandContext(ctx, "bash", append([]string{filepath.Join(dir, "hook.sh")}, in.Args...)...)
-		// the hook runs in an EMPTY directory of its own: the framework's unquoted expansions undergo
-		// pathname expansion, and the model (C19_WModel) assumes that no pattern has a match
+		// the hook runs in an EMPTY directory of its own (before the repair a686454 the framework's unquoted
+		// expansions underwent pathname expansion: a run against such a tree must not depend on stray files)
 		cmd.Dir = filepath.Join(dir, "cwd")
 		cmd.Env = []string{"PATH=" + os.Getenv("PATH"), "LC_ALL=C", "VERIF_LIB=" + filepath.Join(dir, "lib.sh"),
 			"VERIF_TRACE=" + trace, "VERIF_CFG=" + filepath.Join(dir, "config"), "BINDING_CONTEXT_PATH=" + filepath.Join(dir, "ctx.json")}
@@ -1889,7 +1889,7 @@ var exoticBindings = []string{"a b", "x y z", "a*", "?", "[ab]", "$HOME", "a;b",
 var wordRe = regexp.MustCompile(`\S+`)
 
 func exoticInput(r *core.Rng) Input {
-	in := Input{} // (judged since the model speaks about words: C19_WModel)
+	in := Input{} // (judged: the model speaks about names of any content)
 	b := exoticBindings[r.Intn(len(exoticBindings))]
 	typed := []string{"schedule", "sync", "added", "modified", "deleted", "group", "validating", "mutating", "conversion"}
 	c := mkCtx(typed[r.Intn(len(typed))], b)
@@ -2007,7 +2007,7 @@ func Gen(r *core.Rng, tier string) ([]core.In[Input], bool) {
 	for _, in := range configSystematic() {
 		ins = append(ins, core.In[Input]{Input: in, Stream: "config-systematic"})
 	}
-	nRandom, nExotic, pairs, nBody, nLarge, nConfig, nNames := 60, 24, false, 110, 10, 120, 70
+	nRandom, nExotic, pairs, nBody, nLarge, nConfig, nNames := 60, 24, false, 110, 10, 120, 50
 	switch tier {
 	case "thorough":
 		nRandom, nExotic, pairs, nBody, nLarge, nConfig, nNames = 2500, 300, true, 6000, 150, 5000, 4000
@@ -2084,7 +2084,7 @@ func Extra() map[string]any {
 		"library":                   "real " + repoDir() + "/shell_lib.sh sourced through a copy whose only change is /frameworks/shell/ -> " + repoDir() + "/frameworks/shell/",
 		"context_file":              "rendered by the real pkg/hook/binding_context ConvertBindingContextList(v1)",
 		"exhaustive_scope":          "exhaustive-1: 13 context kinds x every subset of the kind's candidate handlers (+__main__) x exit status {0,1} x decoy handlers {absent,present}; exhaustive-2 (thorough): 13x13 ordered kind pairs under one binding x every subset of the union of candidates x {no failure, failure at index 0, failure at index 1}",
-		"names_streams":             "names-systematic: a catalogue of ~110 user-style names x (quick: one typed kind and one position each, rotating; thorough: 9 typed kinds x position first/middle/last x __main__ defined or not) in an array of three contexts whose other two (Event Added `pods`, Schedule `b1`) have their own handlers defined; the wild string is the binding name, for Group also/only the group name, for Conversion also a version. names-random: 2-5 contexts, each position wild with probability ~1/2 (catalogue or composed from ~45 tokens and blank/tab separators), handlers: whole documented names, the words they fall apart into (low rate), __main__ 75%, failing statuses. Every hook runs in an empty working directory; words the shell of this machine knows beyond C19_Corr.shell_table are never generated (hazard filter). All these cases are compared with the model; cases inside the pending triggers FRAG (a word of a split name is a function of the hook / known to the shell) and GLOB (a word is a glob pattern: failglob) are not judged by the predicate until the lead records the findings - FRAGV / GLOBV count those on which hook.sh violates it",
+		"names_streams":             "names-systematic: a catalogue of ~110 user-style names x (quick: one typed kind and one position each, rotating; thorough: 9 typed kinds x position first/middle/last x __main__ defined or not) in an array of three contexts whose other two (Event Added `pods`, Schedule `b1`) have their own handlers defined; the wild string is the binding name, for Group also/only the group name, for Conversion also a version. names-random: 2-5 contexts, each position wild with probability ~1/2 (catalogue or composed from ~45 tokens and blank/tab separators), handlers: whole documented names, the words they fall apart into (low rate), __main__ 75%, failing statuses. Every hook runs in an empty working directory; contexts with a bare word the shell of this machine knows beyond a small table are not generated (hazard filter: matters only when the check runs against a tree without the repair a686454, where such a word would be executed). All these cases are compared with the model and judged by the predicate; the names-corpus holds the regression witnesses of the two repaired defects (a name whose word is another handler / a shell keyword / a builtin; a name with glob characters)",
 		"exotic_stream":             "the former triage-only stream (single wild names) is judged like the names streams now; XMODEL / XSPEC count cases outside the model (a member the harness cannot read back, a NUL or newline in a string). trigger-F20 stream: typed contexts bound under the reserved name onStartup (corpus witness + ~5% of the random count), judged and excused by the recorded finding F20",
 		"config_text":               "the text the generated __config__ writes is an input (absent = the line VERIF-CONFIG-TEXT): a list of chunks (bytes x repetitions), each written by cat of a file / a quoted here-document / printf '%s' / echo, before the commands of its body; the COMPLETE stdout of every run (all modes) is recorded, run-length encoded losslessly and compared byte for byte with the model's (Coq expands both); config-systematic: a catalogue of ~130 texts (whole YAML/JSON configurations with document marker, escaped quotes, %, regex backslashes; leading dashes; % and printf formats; backslash sequences; no/one/several final newlines, blanks, empty; shell-significant characters; CR, non-UTF-8, control bytes, NUL; several writes; 4 KiB / 64 KiB / 128 KiB / 320 KiB) with a succeeding __config__, every eighth also with a failing one; config-random: texts from a grammar (leading x YAML|JSON document with jqFilters in every quoting style x trailing, spliced special tokens, or short strings over the alphabet of special characters), 1-4 writes in random forms, 1 in 5 with a failing __config__ (return status or a command of its body), contexts / other handlers / further arguments at random; tags cfg:*",
 		"exotic_cases":              len(exoticLog),
@@ -2095,7 +2095,7 @@ func Extra() map[string]any {
 
 var Driver = core.Driver[Input, Obs]{
 	Spec: core.Spec{Property: "C19", Imports: []string{"C19_Model", "C19_Spec", "C19_Corr"}, Corr: "C19_Corr",
-		Triggers: []string{"F20", "XMODEL", "XSPEC", "FRAG", "GLOB", "FRAGV", "GLOBV"}, ShrinkKey: "ctxs",
-		Rule: "one run of a generated bash hook (real shell_lib.sh + frameworks/shell, scripted handler functions, trace file) per case; streams: corpus, exhaustive-1, exhaustive-2 (thorough), strict-systematic and random-body (handlers with bodies of commands run under strict mode: a failing command / pipeline / unset variable / block in the middle followed by succeeding commands, tested positions, return/exit, no final return; the marks of the commands that started are compared), random (0-6 contexts, safe binding names, shuffled definitions, 8 exit codes, --config and other arguments), malformed (contexts the operator never produces; model only), trigger-F20 (typed binding named onStartup), names-corpus / names-systematic / names-random and exotic (the CONTENT of binding names, group names and versions in arrays of several contexts: names with blanks, tabs, runs of blanks, leading/trailing blanks, empty, glob characters, quotes, backslashes, $, shell keywords, fragments that are other handlers' names, in every position of the array, beside contexts with identifier-like names that have their own handlers; compared with the word-level model C19_WModel (word splitting + failglob in an empty working directory) and judged by C19_WSpec.PW outside the pending triggers FRAG / GLOB), config-systematic and config-random (--config with the TEXT of __config__ as an input: any bytes, written in several pieces and ways; the raw stdout of the run is compared byte for byte and judged by the clause printed-verbatim - the raw stdout is compared in every other stream too); non-trivial = dispatch over >=1 context with >=1 handler defined, or --config with __config__ defined; distinct = distinct input JSON"},
+		Triggers: []string{"F20", "XMODEL", "XSPEC"}, ShrinkKey: "ctxs",
+		Rule: "one run of a generated bash hook (real shell_lib.sh + frameworks/shell, scripted handler functions, trace file) per case; streams: corpus, exhaustive-1, exhaustive-2 (thorough), strict-systematic and random-body (handlers with bodies of commands run under strict mode: a failing command / pipeline / unset variable / block in the middle followed by succeeding commands, tested positions, return/exit, no final return; the marks of the commands that started are compared), random (0-6 contexts, safe binding names, shuffled definitions, 8 exit codes, --config and other arguments), malformed (contexts the operator never produces; model only), trigger-F20 (typed binding named onStartup), names-corpus / names-systematic / names-random and exotic (the CONTENT of binding names, group names and versions in arrays of several contexts: names with blanks, tabs, runs of blanks, leading/trailing blanks, empty, glob characters, quotes, backslashes, $, shell keywords, fragments that are other handlers' names, in every position of the array, beside contexts with identifier-like names that have their own handlers; compared with the model C19_Model of the repaired hook.sh (a686454: a name is one candidate whatever it contains) and judged by C19_WSpec.PW, every case, the names mishandled before the repair included), config-systematic and config-random (--config with the TEXT of __config__ as an input: any bytes, written in several pieces and ways; the raw stdout of the run is compared byte for byte and judged by the clause printed-verbatim - the raw stdout is compared in every other stream too); non-trivial = dispatch over >=1 context with >=1 handler defined, or --config with __config__ defined; distinct = distinct input JSON"},
 	Gen: Gen, Run: Run, Render: Render, PerShard: 150, Workers: 12, CaseTimout: 150 * time.Second, Extra: Extra,
 }
